@@ -75,7 +75,10 @@ def gen_ops(rng, ids, depth, budget):
         elif r < 0.87 and depth < 2:
             ops.append({"k": "sub", "how": rng.choice(["yield_from", "iterate"]), "decorated": rng.random() < 0.7,
                         "body": gen_ops(rng, ids, depth + 1, budget), "ret": ids()})
-        elif r < 0.93:
+        elif r < 0.9 and depth < 2:
+            # two nested decorated generators driven alternately, by hand, from inside this generator
+            ops.append({"k": "inter", "bodies": [gen_ops(rng, ids, depth + 1, budget), gen_ops(rng, ids, depth + 1, budget)], "ret": ids()})
+        elif r < 0.94:
             ops.append({"k": "return", "val": ids()})
             break
         else:
@@ -173,10 +176,42 @@ def make_genfunc(ops, mon, label, decorated, ret=None):
                     it = subf()
                     try:
                         for item in it:
+                            # driving a nested DECORATED generator must not change this generator's own current action
+                            # (a plain nested generator shares this generator's context by design)
+                            if op["decorated"]:
+                                mon.probe(stack[-1], "%s after resuming a nested generator" % label)
                             yield item
                     finally:
                         it.close()  # deterministic finalisation (otherwise it depends on when the collector frees it)
                 mon.probe(stack[-1], "%s after sub-generator" % label)
+            elif k == "inter":
+                subs = [make_genfunc(b, mon, "%s.i%s_%d" % (label, op["ret"], j), True, ret=None) for j, b in enumerate(op["bodies"])]
+                for sf in subs:
+                    sf._shadow_base = stack[-1]
+                its = [sf() for sf in subs]
+                live = list(its)
+                try:
+                    while live:
+                        for it in list(live):
+                            try:
+                                item = next(it)
+                            except StopIteration:
+                                live.remove(it)
+                                continue
+                            mon.probe(stack[-1], "%s after resuming one of two interleaved nested generators" % label)
+                            yield item
+                            mon.probe(stack[-1], "%s between interleaved nested generators" % label)
+                finally:
+                    # close every nested generator deterministically even if closing one of them raises
+                    err = None
+                    for it in its:
+                        try:
+                            it.close()
+                        except BaseException as e:
+                            if err is None:
+                                err = e
+                    if err is not None:
+                        raise err
             elif k == "return":
                 return ("r", op["val"])
             elif k == "raise":
@@ -372,7 +407,7 @@ def one(seed, i, res):
     kinds = set(ev[3][0] for ev in td if ev[0] == "driver")
     for k in kinds:
         res["sets"]["step_outcomes"].append(k)
-    has_act = any(op["k"] == "act" for b in bodies for op in b)
+    has_act = any(op["k"] in ("act", "sub", "inter") for b in bodies for op in b)
     ctxs = set(st["ctx"] for st in script)
     if has_act and (len(ctxs) >= 2 or any(st["op"] in ("throw", "close") for st in script)):
         res["nontrivial"].append(h([bodies, script]))
